@@ -83,6 +83,10 @@ type HSConfig struct {
 	// from a PRNG seeded with it, so that a session can be reproduced
 	// bit for bit.
 	EphSeed int64
+	// HostileAct2, if set, makes the responder (which holds the right
+	// secret) write an act two whose payload part is the given one instead
+	// of a well-formed one (hook VerifDoHandshakeHostileAct2).
+	HostileAct2 *mailbox.VerifHostileAct2
 }
 
 // HSResult is the outcome of a handshake experiment.
@@ -205,7 +209,11 @@ func RunHandshake(cfg HSConfig) *HSResult {
 	}()
 	go func() {
 		defer wg.Done()
-		s.Err = s.M.DoHandshake(b)
+		if cfg.HostileAct2 != nil {
+			s.Err = s.M.VerifDoHandshakeHostileAct2(b, cfg.HostileAct2)
+		} else {
+			s.Err = s.M.DoHandshake(b)
+		}
 		s.Done = true
 		b2a.Close()
 		if s.Err != nil {
